@@ -572,12 +572,12 @@ class C14(Prop):
     harness = "h_getopts.c"
     theorems = ["EaselModel.Props.C14." + t for t in (
         "sources_are_setting_sequences_env", "sources_are_setting_sequences_cfg", "sources_are_setting_sequences_cmdline",
-        "successful_run_is_history", "last_setter_wins", "untouched_keeps_state", "fresh_object_all_default",
+        "successful_run_is_history", "successful_cfgfile_is_history", "successful_cmdline_is_history", "last_setter_wins", "untouched_keeps_state", "fresh_object_all_default",
         "same_source_twice_is_usage_error", "set_after_toggle_by_same_source_is_usage_error",
-        "set_option_spec", "toggle_switches_others_off",
+        "set_option_spec", "toggle_switches_others_off", "optlist_element_denotes_named_option", "optlist_reads_back_names",
         "abbrev_full_name_resolves", "abbrev_resolves_iff_unique", "abbrev_ambiguous_iff_two", "abbrev_unknown_iff",
         "dashdash_ends_options", "first_nonoption_ends_options", "options_end_where_documented", "plus_word_is_argument", "args_returned_in_order", "getArg_is_argv_from_optind",
-        "cmdline_ends_cleanly", "spoof_ends_cleanly", "environment_ends_cleanly", "configfile_ends_cleanly",
+        "every_history_ends_cleanly", "cmdline_ends_cleanly", "spoof_ends_cleanly", "environment_ends_cleanly", "configfile_ends_cleanly",
         "rejected_setting_changes_nothing", "unknown_long_option", "ambiguous_long_option", "argument_to_flag",
         "missing_argument_long", "unknown_short_option", "verifyConfig_ok_iff_consistent",
         "int_range_two_sided", "int_range_lower", "int_range_upper", "range_string_two_sided", "char_range_two_sided",
@@ -610,7 +610,7 @@ class C14(Prop):
     rule = ("case = random well-formed option table (1-12 options) + 1-5 sources (cmdline/spoof/env/config file) in random order + VerifyConfig + full dump; "
             "non-trivial = at least one source returned ok and the final dump shows an option not at its default setter; distinct by output trace")
     quick_cases = 12000
-    thorough_cases = 30000
+    thorough_cases = 120000
 
     def __init__(self):
         self._stats = {}
